@@ -282,6 +282,11 @@ Definition chk (alpha : Qc) (D : nat -> dpoint) (F : forest) (R : list (list Qc)
 Definition chkp (alpha : Qc) (F : forest) (lp lp1 blp blp1 : Q) : bool :=
   qcclose tol (prior_log_p alpha F None None None) lp && qcclose tol (prior_log_p_one alpha c_default F None None None) lp1
   && qcclose tol (fst (prior_both alpha c_default F)) blp && qcclose tol (snd (prior_both alpha c_default F)) blp1.
+(* model of the code paths only (used where the premises of C03_impl_is_spec do not hold: p = 1) *)
+Definition chki (alpha : Qc) (D : nat -> dpoint) (F : forest) (R : list (list Qc)) (lp lp1 : Q) : bool :=
+  qcclose tol (impl_log_p alpha D F R) lp && qcclose tol (impl_log_p_one alpha c_default D F R) lp1.
+(* Tree.get_clades() as a set of sets against the model's clade family *)
+Definition chkc (F : forest) (obs : list (list nat)) : bool := set_eqb (set_eqb Nat.eqb) (clades F) obs.
 (* DataPoint attributes *)
 Definition chkd (d : dpoint) (op opn om : Q) : bool :=
   qcclose tol (i_op (data_point d)) op && qcclose tol (i_opn (data_point d)) opn && qcclose tol (i_omarg (data_point d)) om
@@ -318,7 +323,7 @@ def run(ctx):
         specs += all_specs(range(n), outliers=True)
     n_enum = len(specs)
     for _ in range(25 if ctx.quick else 400):
-        specs.append(random_spec(rng, range(rng.randint(5, NPTS)), outlier_frac=0.25, max_block=3))
+        specs.append(random_spec(rng, range(rng.randint(5, NPTS)), outlier_frac=0.25, max_block=rng.choice([1, 2, 3])))
     ctx.extra["enumerated_trees"] = n_enum
     ctx.extra["random_trees"] = len(specs) - n_enum
 
@@ -429,6 +434,37 @@ def run(ctx):
             coq_meta.append({"datapoint": i, "p": str(p)})
             ctx.case(n=1)
 
+    # ---- boundary observation (not a verdict): outlier prior p = 1.  log(1) * size = 0.0 is the code's "no outlier prior" sentinel,
+    # so the prior is skipped although the statement gives (1-p)^size = 0 for every point inside a clone.  The Coq model reproduces
+    # the code (chki items); C03_impl_is_spec has the premise p < 1 and Properties/C03.v carries the witness C03_outlier_prob_one_refuted.
+    with np.errstate(divide="ignore"):
+        data1 = mk_data(vals, Fraction(1), sizes)
+    obs_p1 = []
+    for spec in specs[: n_enum]:
+        if len(spec_nodes(spec)) == 0 or len(spec_nodes(spec)) + len(spec[1]) > 3:
+            continue
+        t = build_children_first(spec, data1, G)
+        dist = TreeJointDistribution(FSCRPDistribution(2.5))
+        lp, lp1 = float(dist.log_p(t)), float(dist.log_p_one(t))
+        obs_p1.append((spec, lp))
+        R = np.exp(np.asarray(t.data_log_likelihood, dtype=float))
+        Rc = "[" + "; ".join("[" + "; ".join(q(Fraction(float(x))) for x in row) + "]" for row in R) + "]"
+        coq_items.append("chki %s D2 %s %s %s %s" % (q(Fraction(5, 2)), coq_forest(spec), Rc, qq(math.exp(lp)), qq(math.exp(lp1))))
+        coq_meta.append({"tree": spec, "p": "1", "boundary": True})
+    ctx.extra["boundary_p_equals_1"] = {
+        "trees_with_a_clone_probed": len(obs_p1),
+        "finite_log_p": sum(1 for _, lp in obs_p1 if math.isfinite(lp)),
+        "note": "statement value is -inf for each of these; reported as an observation, not as a violation (degenerate configuration)",
+    }
+
+    # ---- Tree.get_clades against the model's clades (one history per enumerated tree)
+    for spec, t, name in pool:
+        if name != "children_first":
+            continue
+        obs = sorted(sorted(int(x) for x in cl) for cl in t.get_clades())
+        coq_items.append("chkc %s [%s]" % (coq_forest(spec), "; ".join(nl(cl) for cl in obs)))
+        coq_meta.append({"tree": spec, "clades": obs})
+
     # ---- Tree.__eq__ / __hash__ on all pairs
     n_pairs = 0
     keys = [(s, hash(t)) for s, t, _ in pool]
@@ -449,7 +485,7 @@ def run(ctx):
     ctx.count("eq/hash pairs", n_pairs)
 
     # ---- correspondence inside Coq
-    header = HEADER + "".join(coq_data("D%d" % k, vals, p, sizes) for k, p in enumerate(ps))
+    header = HEADER + "".join(coq_data("D%d" % k, vals, p, sizes) for k, p in enumerate(ps + [Fraction(1)]))
     ok, bad, detail = coq.coq_eval_bool_cases(ctx, "corr", header, coq_items, shard=60, workers=4)
     ctx.extra["coq_corr_cases"] = len(coq_items)
     if not ok:
